@@ -414,11 +414,17 @@ std::string ClassifyDeath(const PoolDeath &d, std::string *sig,
     std::string msg = log.substr(s, e - s);
     // Strip concrete numbers so that the signature is stable.
     std::string norm;
-    for (char c : msg) {
-      if (isdigit(static_cast<unsigned char>(c))) {
+    // Hexadecimal numbers (addresses) first, then decimal ones.
+    for (size_t i = 0; i < msg.size(); ++i) {
+      if (msg[i] == '0' && i + 1 < msg.size() && msg[i + 1] == 'x') {
+        size_t j = i + 2;
+        while (j < msg.size() && isxdigit(static_cast<unsigned char>(msg[j]))) ++j;
+        norm += "0x#";
+        i = j - 1;
+      } else if (isdigit(static_cast<unsigned char>(msg[i]))) {
         if (norm.empty() || norm.back() != '#') norm += '#';
       } else {
-        norm += c;
+        norm += msg[i];
       }
     }
     // Source position precedes "runtime error".
